@@ -1231,7 +1231,8 @@ result_t NumberDataType::parseInput(const string inputStr, unsigned int* parsedV
             value = (unsigned int)signedValue;
           }
         } else {
-          unsigned long unsignedValue = strtoul(str, &strEnd, 0);
+          // BCD digits are decimal: a leading zero (e.g. of a PIN) does not announce an octal number
+          unsigned long unsignedValue = strtoul(str, &strEnd, hasFlag(BCD) ? 10 : 0);
           if (errno == ERANGE || static_cast<unsigned long long>(unsignedValue) >= (1ULL << m_bitCount)) {
             return RESULT_ERR_OUT_OF_RANGE;
           }
